@@ -349,14 +349,15 @@ def rDouble (_ : Proto) (b : Bytes) : R Nat := rFixed b 8
 def rLength : Proto → Bytes → R Nat
   | .compact, b => (readUvarintGo b).bind fun (n, r) => if n > 2147483647 then .err "range" else .ok (n, r)
   | _, b => (rFixed b 4).bind fun (n, r) => if n > 2147483647 then .err "range" else .ok (n, r)
-/-- ReadBytes: length then `io.ReadFull` (error on a short payload is what ReadFull gives: eof if nothing, else unexpectedEof) -/
-def rBytes (p : Proto) (b : Bytes) : R Bytes :=
-  (rLength p b).bind fun (n, r) =>
-    if n == 0 then .ok ([], r) else readN r n
-
 def dontExpectEOF {α} : R α → R α
   | .err "eof" => .err "unexpectedEof"
   | x => x
+
+/-- ReadBytes: length then `io.ReadFull`; once the length prefix has been read, a missing payload is an unexpected EOF
+(`dontExpectEOF(err)`, both protocols) -/
+def rBytes (p : Proto) (b : Bytes) : R Bytes :=
+  (rLength p b).bind fun (n, r) =>
+    if n == 0 then .ok ([], r) else dontExpectEOF (readN r n)
 
 structure FieldHdr where
   t : TType
@@ -568,9 +569,24 @@ end
 -- go: thrift.Marshal
 def marshal (p : Proto) (t : Ty) (v : Val) : Bytes := encode p t v
 
+mutual
+/-- nesting depth of a type (every `decode` level costs one unit of fuel, collections and structs two); Go recurses on
+the type without a budget, so the model's budget grows with it -/
+def depth : Ty → Nat
+  | .slice t => 2 + depth t
+  | .map k v => 2 + max (depth k) (depth v)
+  | .struct fs => 2 + depthFields fs
+  | .ptr t => 1 + depth t
+  | .named _ t => 1 + depth t
+  | .bool | .int _ | .f32 | .f64 | .str | .bytes | .any | .arr _ _ => 1
+def depthFields : Fields → Nat
+  | .nil => 0
+  | .cons _ _ _ t rest => max (depth t) (depthFields rest)
+end
+
 -- go: thrift.Unmarshal (target: pointer to a zero value of t)
 def unmarshal (p : Proto) (strict : Bool) (t : Ty) (b : Bytes) : Res Val :=
-  match decode p strict (4 * b.length + 64) t b (zeroOf t) with
+  match decode p strict (4 * b.length + 64 + depth t) t b (zeroOf t) with
   | .ok (v, rest) => if rest.isEmpty then .ok v else .err "trailing"
   | .err e => .err e
   | .panic e => .panic e
